@@ -41,9 +41,9 @@ abbrev B : Rat := NumT.B
 
 theorem B_eq : B = 9223372036854775808 := by unfold B NumT.B; norm_num
 
-/-- float32 or float64 -/
+/-- float32, float64 or `exact` (statistics of integer tensors; python numbers -- see `C08e`) -/
 abbrev F3264 := @NumT.F3264
-/-- finite statistics: float32/float64 arrays of one shape, magnitudes at most `B` -/
+/-- finite statistics: float32 / float64 / `exact` arrays of one shape, magnitudes at most `B` -/
 abbrev StatFin := @NumT.StatFin
 /-- operand shape `s` broadcasts to `r` without enlarging it -/
 abbrev Compat := @NumT.Compat
@@ -154,8 +154,9 @@ example : ∃ r, quantizeBias ⟨⟨[2], [1/2, -1/4]⟩, .f32⟩
 
 /-- good statistics entry: finite (`StatFin`) and per-tensor (all dimensions 1) -/
 abbrev StatGood := @MatTotal.StatGood
-/-- the names whose entry matters: the runtime tensors that an operator selected for min/max quantization reads or
-    writes, and the float operand of a selected same-as-input operator (its entry is copied to the results) -/
+/-- the names whose entry matters: the FLOAT32 runtime tensors that an operator selected for min/max quantization reads
+    or writes, and the float32 operand of a selected same-as-input operator (its entry is copied to the results); entries
+    of integer tensors are never read -/
 abbrev StatName := @MatTotal.StatName
 /-- **bounded inputs** (fields documented in `QProofs/NumericTotal.lean`):
     * `consts`: every constant has magnitudes at most `B`;
